@@ -165,10 +165,18 @@ Qed.
 
 (* C03: the SRC section shows exactly what the specification says *)
 Theorem render_src_spec e c h creator s : structured e -> wf_hdr h -> wf_src s ->
+  error_details e (s_words s) (s_ascii s) <> None ->        (* the registry entry for this SRC, if any, is well-formed: the C03 registry theorems *)
   render_src e c h [creator] s = Some (doc_src (se_of e) (sp_of e) (allow_plugins c) creator h s).
 Proof.
-  intros Hst Hh (H1 & H2 & H3 & Hw & H5 & H6 & Lw & Fw & (La & Aa) & Hc).
+  intros Hst Hh (H1 & H2 & H3 & Hw & H5 & H6 & Lw & Fw & (La & Aa) & Hc) Hed.
   unfold render_src, doc_src. rewrite (utf8_decode_ascii _ Aa).
+  cbn [se_of se_error_details]. cbv zeta.
+  destruct (error_details e (s_words s) (s_ascii s)) as [ed|] eqn:Eed; [|congruence]. clear Hed.
+  assert (Hedm: (if text_eqb (firstn 2 (s_ascii s)) Gen.Tables.SRCType_bmcError || text_eqb (firstn 2 (s_ascii s)) Gen.Tables.SRCType_powerError || text_eqb (firstn 2 (s_ascii s)) Gen.Tables.SRCType_hostbootError
+                 then Some ed else Some []) =
+                Some (if text_eqb (firstn 2 (s_ascii s)) (L "BD") || text_eqb (firstn 2 (s_ascii s)) (L "11") || text_eqb (firstn 2 (s_ascii s)) (L "BC") then ed else []))
+    by (destruct (_ || _ || _); reflexivity).
+  rewrite Hedm. clear Hedm.
   rewrite base_fields_spec by assumption.
   unfold src_hexwords. rewrite numbered_words_spec by (apply Forall_firstn; assumption).
   rewrite (x0_fixed 2 (N.land (nth 0 (s_words s) 0) 255)) by (try lia; rewrite land255; apply N.mod_lt; lia).
@@ -191,6 +199,14 @@ Proof.
   rewrite Hco. clear Hco.
   destruct (allow_plugins c).
   - rewrite src_details_spec by assumption. unfold pad8. rewrite map_hexU8 by (apply Forall_firstn; assumption).
-    rewrite map_length. unfold js, str, tf, truefalse, has, bit. rewrite <- !app_assoc. reflexivity.
-  - unfold js, str, tf, truefalse, has, bit. rewrite <- !app_assoc, app_nil_r. reflexivity.
+    rewrite map_length. unfold js, str, tf, truefalse, has, bit.
+    change Gen.Tables.SRCType_bmcError with (L "BD"). change Gen.Tables.SRCType_powerError with (L "11").
+    change Gen.Tables.SRCType_hostbootError with (L "BC").
+    destruct (text_eqb (firstn 2 (s_ascii s)) (L "BD")), (text_eqb (firstn 2 (s_ascii s)) (L "11")), (text_eqb (firstn 2 (s_ascii s)) (L "BC"));
+      cbn [orb]; rewrite <- ?app_assoc; reflexivity.
+  - unfold js, str, tf, truefalse, has, bit.
+    change Gen.Tables.SRCType_bmcError with (L "BD"). change Gen.Tables.SRCType_powerError with (L "11").
+    change Gen.Tables.SRCType_hostbootError with (L "BC").
+    destruct (text_eqb (firstn 2 (s_ascii s)) (L "BD")), (text_eqb (firstn 2 (s_ascii s)) (L "11")), (text_eqb (firstn 2 (s_ascii s)) (L "BC"));
+      cbn [orb]; rewrite <- ?app_assoc, ?app_nil_r; reflexivity.
 Qed.
